@@ -236,8 +236,7 @@ def body(W, plan, hr, history, final_probe=True):
     def probe_play(where):
         """A live play conversation must keep answering keep-alives."""
         srv = W.servers[-1]
-        probe[0] += 1
-        n = probe[0]
+        n = probe[0]        # a constant id: no history-dependent residue
         before = len(srv.play_rx)
         srv.play(('keepalive', n))
         W.settle()
@@ -326,12 +325,7 @@ def body(W, plan, hr, history, final_probe=True):
             break
     state = None
     if not viol:
-        canon = CANON
-        canon.cache.clear()
-        canon.stack_cache.clear()
-        state = h64(repr((canon.agents(S), canon.obj(conn, 3),
-                          canon.net(W.net), m.key(), settled,
-                          len(errs), len(exits))))
+        state = h64(repr(abstract_state(W, conn, m, settled, budget[0])))
     en, mk = enabled_ops(m, settled), m.key()
     if final_probe and not viol:
         # whatever happened: disconnect, everything ends, and the same object
@@ -379,6 +373,74 @@ def body(W, plan, hr, history, final_probe=True):
             'enabled': en, 'mkey': mk}
 
 
+def abstract_state(W, conn, m, settled, budget):
+    """Canonical form used to merge histories in the BFS.  Two histories are
+    merged when the reference model, every attribute of the Connection
+    (generic walk; transport objects reduced to open/closed, threads to
+    alive/interrupted), every live thread's scheduler state and every TCP
+    connection that is still open look the same.  Dropped on purpose:
+    descriptor numbers, byte counters and closed connections (they cannot
+    influence the future), and the exception object kept for inspection."""
+    S = W.S
+
+    def ab(x, depth=3):
+        t = type(x)
+        if x is None or t in (int, float, str, bytes, bool):
+            return x
+        if t in (list, tuple) or t.__name__ in ('deque', 'CDeque'):
+            return tuple(ab(v, depth) for v in x)
+        if t is dict:
+            if x and all(isinstance(v, type) for v in x.values()):
+                return ('typemap', len(x))
+            return tuple(sorted((repr(ab(k, depth)), ab(v, depth))
+                                for k, v in x.items()))
+        if t in (set, frozenset):
+            return tuple(sorted(repr(ab(v, depth)) for v in x))
+        n = t.__name__
+        if n == 'CRLock':
+            return ('lock', x.owner is not None, x.count)
+        if n == 'VSocket':
+            return ('sock', x.closed, x.close_requested)
+        if n == 'VFile':
+            return ('file', x.closed)
+        if n == 'NetworkingThread':
+            a = getattr(x, '_vf_agent', None)
+            return ('nt', a.state if a is not None else None,
+                    getattr(x, 'interrupt', None),
+                    ab(getattr(x, 'previous_thread', None), 1)
+                    if depth > 1 else None)
+        if isinstance(x, BaseException):
+            return ('exc', n)
+        if isinstance(x, type):
+            return ('type', n)
+        if callable(x) and not hasattr(x, '__dict__'):
+            return ('fn', getattr(x, '__qualname__', n))
+        if n.endswith('Packet'):
+            return ('pkt', n)
+        mod = t.__module__ or ''
+        if mod.startswith('vf'):
+            return ('vf', n)
+        if depth <= 0:
+            return ('obj', n)
+        d = getattr(x, '__dict__', None)
+        if d is None:
+            return ('obj', n)
+        return ('obj', n, tuple(sorted(
+            (k, ab(v, depth - 1)) for k, v in d.items()
+            if k not in ('exception', 'exc_info'))))
+
+    agents = tuple((a.name, a.state, a.kind, getattr(a.obj, 'interrupt', None))
+                   for a in S.agents[1:] if a.state != 'done')
+    conns = tuple((getattr(c.server, 'kind', None), c.server.state,
+                   c.eof_pending, c.s2c_eof, len(c.s2c), len(c.outbox),
+                   c.wr_shutdown, c.rd_shutdown, c.sock_closed,
+                   c.file_closed)
+                  for c in W.net.conns
+                  if not (c.sock_closed and c.file_closed))
+    mk = (min(m.tcp, len(m.plan) - 1),) + m.key()[1:]
+    return (mk, settled, budget, ab(conn), agents, conns)
+
+
 def run_history(plan, hr, history, final_probe=True):
     return harness.run(lambda W: body(W, plan, hr, history, final_probe),
                        horizon=100000)
@@ -406,7 +468,10 @@ def w_level(ctx, task):
     ctx.extra['lvl'] = out
 
 
-def bfs(ctx, depth):
+def bfs(ctx, depth, dedup=True, label='bfs'):
+    """dedup=False: every history up to the depth is executed (no state
+    abstraction is trusted); dedup=True: histories are merged on
+    abstract_state() and the search runs towards a fixpoint."""
     seen = set()
     frontier = [(plan, hr, ()) for plan in PLANS for hr in (False, True)]
     for d in range(depth + 1):
@@ -420,23 +485,24 @@ def bfs(ctx, depth):
             return
         nxt = []
         for plan, hr, history, state, enabled in sorted(lvl):
-            key = (plan, hr, state)
+            key = (plan, hr, state) if dedup else (plan, hr, history)
             if key in seen:
                 continue
             seen.add(key)
-            ctx.state(key)
+            ctx.state((plan, hr, state))
             ctx.note((plan, hr, history))
             if d < depth:
                 for op in enabled:
                     nxt.append((plan, hr, history + (op,)))
-        ctx.cls('bfs depth %d: histories=%d new states=%d'
-                % (d, len(frontier), len(nxt)))
+        ctx.cls('%s depth %d: histories=%d successors=%d'
+                % (label, d, len(frontier), len(nxt)))
         frontier = nxt
         if not frontier:
-            ctx.extra['bfs_fixpoint_at_depth'] = d
+            if d < depth:
+                ctx.extra[label + '_fixpoint_at_depth'] = d
             break
-    ctx.extra['bfs_depth'] = depth
-    ctx.extra['bfs_states'] = len(seen)
+    ctx.extra[label + '_depth'] = depth
+    ctx.extra[label + '_distinct'] = len(seen)
 
 
 # ---------------------------------------------------------------------------
@@ -611,7 +677,12 @@ QUICK_B.update({(s, 'connect||connect'): 2 for s in ('fresh', 'disconnected')})
 
 
 def run(ctx):
-    bfs(ctx, 6 if ctx.thorough else 5)
+    # every history up to a depth, no abstraction trusted
+    bfs(ctx, 5 if ctx.thorough else 4, dedup=False, label='all_histories')
+    if ctx.violations:
+        return
+    # merged on the abstract state: deeper, towards a fixpoint
+    bfs(ctx, 40 if ctx.thorough else 12, dedup=True, label='merged')
     if ctx.violations:
         return
     ex = explore.Explorer(table_bits=25 if ctx.thorough else 23)
